@@ -47,16 +47,29 @@ def enc_tlv(t, v=b''):
     return enc_var(t) + enc_var(len(v)) + v
 
 
+WIDEN = [0]      # 0: shortest legal width; k > 0: at least the k-th wider legal width (legal but not shortest NonNegativeIntegers)
+
+
+class widened:
+    """with widened(k): every NonNegativeInteger written by the reference encoder uses a wider (still legal) width."""
+    def __init__(self, k):
+        self.k = k
+
+    def __enter__(self):
+        self.old = WIDEN[0]
+        WIDEN[0] = self.k
+
+    def __exit__(self, *a):
+        WIDEN[0] = self.old
+
+
 def enc_nni(n):
     if n < 0:
         raise ValueError('negative')
-    if n <= 0xFF:
-        return n.to_bytes(1, 'big')
-    if n <= 0xFFFF:
-        return n.to_bytes(2, 'big')
-    if n <= 0xFFFFFFFF:
-        return n.to_bytes(4, 'big')
-    return n.to_bytes(8, 'big')
+    w = 1 if n <= 0xFF else 2 if n <= 0xFFFF else 4 if n <= 0xFFFFFFFF else 8
+    if WIDEN[0]:
+        w = max(w, (1, 2, 4, 8)[min(3, WIDEN[0])])
+    return n.to_bytes(w, 'big')
 
 
 def read_var(buf, off, end):
@@ -472,7 +485,7 @@ def make_lp(fragment=None, pit_token=None, nack_reason=None, nack=False, headers
 
 # ---------------------------------------------------------------- builders (reference encoder)
 def make_siginfo_value(sig_type, key_name=None, nonce=None, time=None, seq=None, extra=b''):
-    v = enc_tlv(I['SIG_TYPE'], bytes([sig_type]))
+    v = enc_tlv(I['SIG_TYPE'], enc_nni(sig_type))
     if key_name is not None:
         v += enc_tlv(I['KEY_LOCATOR'], enc_name(key_name))
     if nonce is not None:
